@@ -29,6 +29,8 @@
 #include <sys/mman.h>
 #include <unistd.h>
 #include <errno.h>
+#include <stdarg.h>
+#include <sys/syscall.h>
 #include <memory>
 #include <set>
 #include <map>
@@ -122,6 +124,26 @@ int __wrap_ftruncate(int fd, off_t n) {
 int __wrap_ftruncate64(int fd, off64_t n) {
   if (must_fail(kVm)) { errno = ENOSPC; return -1; }
   return __real_ftruncate64(fd, n);
+}
+// `memfd_create` is called through syscall(): a variadic wrapper that forwards six register arguments (x86-64 / AArch64
+// SysV: reading unused variadic slots is harmless); only __NR_memfd_create is counted and may fail (ENFILE, never ENOSYS:
+// ENOSYS would switch the library to shm_open for the rest of the process).
+long __real_syscall(long n, ...);
+long __wrap_syscall(long n, ...) {
+  va_list ap;
+  va_start(ap, n);
+  long a[6];
+  for (int i = 0; i < 6; i++) a[i] = va_arg(ap, long);
+  va_end(ap);
+#ifdef __NR_memfd_create
+  if (n == __NR_memfd_create) {
+    if (must_fail(kVm)) { errno = ENFILE; return -1; }
+    long fd = __real_syscall(n, a[0], a[1], a[2], a[3], a[4], a[5]);
+    if (g_track && fd >= 0) g_live_fd->insert(int(fd));
+    return fd;
+  }
+#endif
+  return __real_syscall(n, a[0], a[1], a[2], a[3], a[4], a[5]);
 }
 int __wrap_close(int fd) {
   if (g_live_fd) g_live_fd->erase(fd);
@@ -248,6 +270,16 @@ static Error prog_x86(E& a, CodeHolder& code, EH& eh, Arena& pool_arena, bool bi
   CK(a.embed_label_delta(Ldata, Ltab, 8));
   CK(a.embed_label_delta(Lend, Ltab, 4));
   {
+    // the pool goes to its own section that is filled up to 8 bytes below its (first) capacity: the alignment padding still
+    // fits, the pool data needs the buffer to grow - after the label has been bound
+    Section* cps = nullptr;
+    CK(code.new_section(Out(cps), ".cpool", SIZE_MAX, SectionFlags::kReadOnly, 32, 2));
+    CK(a.section(cps));
+    {
+      std::vector<uint8_t> fill(16280);
+      for (size_t i = 0; i < fill.size(); i++) fill[i] = uint8_t(i * 13 + 5);
+      CK(a.embed(fill.data(), fill.size()));
+    }
     ConstPool pool(pool_arena);
     size_t off;
     // pairwise distinct constants whose parts do not repeat: the layout does not depend on the (optional) shared nodes
@@ -256,12 +288,12 @@ static Error prog_x86(E& a, CodeHolder& code, EH& eh, Arena& pool_arena, bool bi
     uint32_t c4 = 0x51525354u;
     uint16_t c2 = 0x6162;
     // descending sizes: no alignment gaps, so the layout does not depend on whether a Gap record could be allocated
-    CK1(pool.add(&c8[0], 32, Out(off)));
-    CK1(pool.add(&c8[4], 16, Out(off)));
-    CK1(pool.add(&c8[6], 8, Out(off)));
-    CK1(pool.add(&c4, 4, Out(off)));
-    CK1(pool.add(&c2, 2, Out(off)));
-    CK1(a.embed_const_pool(Lpool, pool));   // composite call (align + bind + data): not repeated
+    CK(pool.add(&c8[0], 32, Out(off)));
+    CK(pool.add(&c8[4], 16, Out(off)));
+    CK(pool.add(&c8[6], 8, Out(off)));
+    CK(pool.add(&c4, 4, Out(off)));
+    CK(pool.add(&c2, 2, Out(off)));
+    CK(a.embed_const_pool(Lpool, pool));
   }
   return Error::kOk;
 }
@@ -392,6 +424,7 @@ struct Workload {
   // (re)initialise the objects for attempt number `attempt` (0 = first use) - may itself fail
   virtual Error prepare(int attempt) = 0;
   virtual Error body(Out2& o) = 0;
+  virtual bool retries() const { return false; }   // the workload repeats every failed call (also the initialisation)
   EH eh;
 };
 
@@ -425,6 +458,7 @@ struct HolderWL : Workload {
 struct AsmX86 : HolderWL {
   bool big;
   bool retry = false;
+  bool retries() const override { return retry; }
   x86::Assembler a;
   Arena pool_arena{4096};
   explicit AsmX86(bool big) : big(big) { env.init(Arch::kX64); }
@@ -448,6 +482,7 @@ struct AsmA64 : HolderWL {
 struct BuildX86 : HolderWL {
   bool big;
   bool retry = false;
+  bool retries() const override { return retry; }
   x86::Builder b;
   Arena pool_arena{4096};
   explicit BuildX86(bool big) : big(big) { env.init(Arch::kX64); }
@@ -653,6 +688,7 @@ static Attempt attempt(Workload& wl, int n, bool armed) {
   Attempt r;
   Out2 o;
   Error e = wl.prepare(n);
+  for (int t = 0; wl.retries() && e != Error::kOk && t < 8; t++) e = wl.prepare(n);
   if (e == Error::kOk) e = wl.body(o);
   r.err = e;
   r.eh = wl.eh.count;
@@ -799,7 +835,8 @@ static std::string ops_state() {
   for (Section* sec : code.sections()) {
     size_t nl = strnlen(sec->name(), 36);
     s += (nl ? vh::bytes_to_hex((const uint8_t*)sec->name(), nl) : std::string("-")) + ":" + std::to_string(sec->alignment()) + ":" +
-         std::to_string(sec->order()) + ":" + std::to_string(sec->buffer_size()) + ":" + std::to_string(sec->virtual_size()) + ",";
+         std::to_string(sec->order()) + ":" + std::to_string(sec->buffer_size()) + ":" + std::to_string(sec->virtual_size()) + ":";
+    { vh::Fnv fb; fb.add(std::string((const char*)sec->buffer().data(), sec->buffer().size())); s += vh::to_hex(fb.h) + ","; }
   }
   s += " O=";
   for (Section* sec : code.sections_by_order()) s += std::to_string(sec->section_id()) + ",";
